@@ -46,6 +46,16 @@ def graphs_for(ctx):
     gs = []
     for n in (1, 2, 3, 4):
         gs += list(cz.all_graphs(n))
+    # disjoint unions with contiguous blocks (the emitters are all released mid-way and reused): blocks of 2..4 vertices
+    conn = {k: [g for g in cz.all_graphs(k) if nx.is_connected(g)] for k in (2, 3, 4)}
+    unions = [(a, b) for ka, kb in ((2, 3), (3, 2), (2, 4), (4, 2), (3, 3), (3, 4), (4, 3), (4, 4), (2, 2))
+              for a in conn[ka] for b in conn[kb]]
+    for a, b in (ctx.rng.sample(unions, 14) if ctx.quick else ctx.rng.sample(unions, 400)):
+        gs.append(nx.disjoint_union(a, b))
+    if not ctx.quick:
+        for _ in range(40):
+            a, b, c = (ctx.rng.choice(conn[k]) for k in (ctx.rng.choice([2, 3]), ctx.rng.choice([2, 3]), 2))
+            gs.append(nx.disjoint_union(nx.disjoint_union(a, b), c))
     if not ctx.quick:
         gs += list(cz.all_graphs(5))
         for n, cnt in ((6, 400), (7, 150)):
